@@ -8,13 +8,13 @@ FREQ_POOL = [935000, 890000, 1805200]     # kHz, as sent in RXTUNE/TXTUNE/SETFH 
 
 
 @st.composite
-def app_config(draw, max_extra=4):
+def app_config(draw, max_extra=4, min_extra=0):
     """BTS + MS + up to max_extra additional transceivers (children of BTS / MS / an extra parent)"""
     bts_port, bb_port = draw(st.sampled_from([(5700, 6700), (5700, 6700), (5800, 6900), (6700, 5700), (10000, 20000)]))
     cfg = {"bts_port": bts_port, "bb_port": bb_port, "bts_addr": "127.0.0.1",
            "bb_addr": draw(st.sampled_from(["127.0.0.1", "127.0.0.1", "127.0.0.3"])),
            "bind_addr": draw(st.sampled_from(["0.0.0.0", "0.0.0.0", "127.0.0.10"])), "trx_defs": []}
-    n = draw(st.integers(0, max_extra))
+    n = draw(st.integers(min_extra, max_extra))
     used = set()
     have_x = False
     xport = draw(st.sampled_from([7700, 30000]))
